@@ -163,4 +163,93 @@ PROPS = {
         "level_text": "Lean 4 theorems over the task transition system for every interleaving of wakers/workers/cancellation: at most one Runnable exists, only the Runnable polls and only when it is not already polling, a wake creates a Runnable only when the wake count goes 0 -> 1 in the polling phase; hence a model's init and handlers (one sequential future) never overlap; tied to the code by the task engine (scheduling calls compared after every handle operation) and by a per-model busy flag on real multi-threaded benches",
         "level_note": "trusted: Lean kernel, propext/Classical.choice/Quot.sound, Rust ownership (one future owns the model), SC atomics in the model, the differential harness",
     },
+
 }
+
+NET_RULE = ("random benches of 2-7 models (hierarchies of depth 0-3 built with add_submodel, mailbox capacities 1-4, orphan mailboxes "
+    "never added to the simulation, event sinks), Output/Requestor ports connected plain / map / filter_map to inputs, repliers and sinks, "
+    "content-deterministic handler and init scripts (sends, broadcasts, queries, conditional operations), saturating event loops and query "
+    "cycles (stalls), injected faults (handler panic, mailbox dropped before the run, handler overrunning the step time-out), EventSource "
+    "actions, 1-6 driver commands (process_event, process_query, scheduled events + step); each bench runs on the single-threaded executor "
+    "or on a 2-8 thread executor; compared with the model's run to quiescence: result/error kind with attribution and exact deadlock list, "
+    "multiset of handler invocations per command, replies, sink contents, init log, names; the implementation's own trace is also checked "
+    "against the property predicates (monitors: causal order via vector pasts, exactly-once per accepted connection, ground-truth in-flight "
+    "count through the channel-operation hook, init-before-handling, Terminated after a fatal error); non-trivial = at least three handler "
+    "invocations; distinct by hash of requests+responses")
+NET_ASSUME = [
+    "interleaving granularity: one transition per channel operation (start of a port operation, one push, one pop, completion, handler return); a handler awaits only port operations",
+    "the mailbox is a bounded FIFO with blocking senders (justified by C12's refinement theorem for the queue and by the queue/net engines for the wake-ups)",
+    "the executors run every runnable task until none is left and return then; their internals (work stealing, parking, idle detection) are not modelled - single- and multi-threaded runs are compared with the model instead",
+    "event ids, causal pasts and logs are ghost state of the model; the engine reconstructs them on the implementation side from unique payloads",
+]
+NET_TB = ["M-NET is hand-written from channel.rs, ports/output*.rs, ports/source*.rs, simulation.rs (run / add_model / error classification) and executor/*.rs (message counter); tied by the `net` engine"]
+NET_NOTE = ("trusted: Lean kernel, propext/Classical.choice/Quot.sound, the differential harness (net engine) and its canonicalisation (multisets per command; stalled runs compared by kind plus the ground-truth monitor); "
+    "executor internals and weak-memory effects are outside the model")
+
+PROPS.update({
+    "C03": {
+        "props_module": "NexoVerif.Props.C03",
+        "model": "M-NET (NexoVerif/Model/Net.lean, NetRun.lean)",
+        "engines": [{"name": "net", "rule": NET_RULE}],
+        "assumptions": NET_ASSUME + ["map/filter_map of a connection is applied when the port operation starts (one sub-send per accepting connection)"],
+        "trusted_base": NET_TB,
+        "explanation": "theorems mailbox_conservation, no_message_arrives_twice, processed_at_most_once, nothing_invented, completed_run_processed_everything, sends_are_fresh",
+        "level_text": "Lean 4 invariant proofs over the message-passing transition system M-NET for every program, capacity and interleaving (unbounded): per mailbox arrivals = processed ++ queued, event ids are fresh and arrive at most once, nothing is processed twice or by another model, everything processed was sent to that mailbox, and a run that ends with counter 0 has processed every arrival exactly once; tied to the code by differential runs of real benches (ST and MT executors) with an exactly-once monitor on the implementation trace",
+        "level_note": NET_NOTE,
+    },
+    "C06": {
+        "props_module": "NexoVerif.Props.C06",
+        "model": "M-NET (NexoVerif/Model/Net.lean, NetRun.lean)",
+        "engines": [{"name": "net", "rule": NET_RULE}],
+        "assumptions": NET_ASSUME + ["the sum of the per-thread message counters is read when the pool is idle (the counter of the model is the sum); qualified names of sub-models are compared by the engine, not modelled"],
+        "trusted_base": NET_TB + ["channel-operation hook (cfg nexosim_verif) gives the engine the ground-truth number of sends and receives"],
+        "explanation": "theorems counter_is_number_queued, no_false_report, ok_only_when_nothing_queued, deadlock_report_is_exact, message_loss_report_is_exact, report_kinds_are_exclusive",
+        "level_text": "Lean 4 theorems over M-NET for every reachable state: the in-flight counter equals the number of queued messages, a run with everything processed is reported ok, Deadlock lists exactly the simulation's non-empty mailboxes with exact sizes, MessageLoss(n) is reported exactly when the n queued messages all sit outside the simulation; tied to the code by differential runs (stalling benches, orphan mailboxes, sub-models) and a ground-truth monitor fed by the channel-operation hook",
+        "level_note": NET_NOTE,
+    },
+    "C02": {
+        "props_module": "NexoVerif.Props.C02",
+        "model": "M-NET (NexoVerif/Model/Net.lean, NetRun.lean)",
+        "engines": [{"name": "net", "rule": NET_RULE}],
+        "assumptions": NET_ASSUME + ["happens-before is the relation generated by program order between completed port operations of one task and send-to-processing (and reply) edges; it is carried as a ghost causal past on every packet (edges_are_recorded shows the three kinds of edges are recorded)"],
+        "trusted_base": NET_TB,
+        "explanation": "theorems causal_past_arrived_before, causal_delivery_order, processing_is_arrival_prefix, processed_in_causal_order, edges_are_recorded",
+        "level_text": "Lean 4 theorems over M-NET for every program, capacity and interleaving, including all states with senders suspended on full mailboxes: every event in the causal past of a message was enqueued strictly earlier, so two causally ordered messages to one model arrive - and, mailboxes being FIFO, are processed - in causal order; tied to the code by differential runs and a causal-order monitor on the implementation's processing logs (1-8 worker threads)",
+        "level_note": NET_NOTE,
+    },
+    "C16": {
+        "props_module": "NexoVerif.Props.C16",
+        "model": "M-NET (NexoVerif/Model/Net.lean, NetRun.lean)",
+        "engines": [{"name": "net", "rule": NET_RULE}],
+        "assumptions": NET_ASSUME + ["sub-models are entries of the flattened model list; the qualified name parent.child is compared by the engine (Context::name(), names in Deadlock/Panic reports), not modelled"],
+        "trusted_base": NET_TB,
+        "explanation": "theorems init_at_most_once, init_before_any_message, handled_implies_initialised, early_messages_are_kept, all_models_initialised_at_quiescence",
+        "level_text": "Lean 4 theorems over M-NET: no model's init starts twice, a model pops its first message only after its init has returned, messages that arrive earlier are kept in order, and when initialisation reaches quiescence every model of the simulation has been initialised; tied to the code by differential runs of hierarchical benches whose init scripts send events and queries, comparing init logs, handler logs and names",
+        "level_note": NET_NOTE,
+    },
+    "C11": {
+        "props_module": "NexoVerif.Props.C11",
+        "model": "M-NET (faults and report) and M-SCHED (is_terminated latch of the driver API)",
+        "engines": [{"name": "net", "rule": NET_RULE},
+                    {"name": "sched", "rule": "see C18/C01: scripted clock lags above the tolerance raise OutOfSync inside random driver sequences; every later step / step_until / process_event must answer Terminated and leave time, queue and log unchanged; past step_until targets (InvalidDeadline) must leave the simulation usable"}],
+        "assumptions": NET_ASSUME + ["the panic payload is compared by the engine (downcast to the injected string), not modelled", "BadQuery is not modelled (process_query on a disconnected replier is exercised by the engine only)"],
+        "trusted_base": NET_TB + ["M-SCHED hand-written from simulation.rs; tied by the `sched` engine"],
+        "explanation": "theorems fault_attribution, report_classifies_faults, nothing_runs_after_a_fault, terminated_is_absorbing, stays_terminated_forever, invalid_deadline_is_not_fatal, only_fatal_errors_terminate",
+        "level_text": "Lean 4 theorems: in M-NET a fault is raised only by the step that causes it and names the right model, the report has the right kind and attribution (NoRecipient names the sender, none for the scheduler) and nothing runs after a fault; in M-SCHED every run call on a terminated simulation returns Terminated and changes nothing, for every further call sequence, while InvalidDeadline is not fatal; tied to the code by differential runs that inject each fault kind at random points of a driver sequence and keep issuing calls afterwards",
+        "level_note": NET_NOTE,
+    },
+    "C04": {
+        "props_module": "NexoVerif.Props.C04",
+        "model": "M-NET (NexoVerif/Model/Net.lean, NetRun.lean) and M-TASK (NexoVerif/Model/Task.lean)",
+        "engines": [{"name": "net", "rule": NET_RULE},
+                    {"name": "task", "rule": "see C13: real task handles driven sequentially incl. re-entrant wakes; the number of scheduled Runnables is compared after every operation (a lost or duplicated wake-up shows up as a missing or extra Runnable)"}],
+        "assumptions": NET_ASSUME + [
+            "PARTIAL: schedule-independence of the multiset of handler invocations is not proved; it is checked by comparing ST, MT (2-8 workers) and model runs",
+            "PARTIAL: the pool manager's idle detection / parking protocol of mt_executor is not modelled; seeded delays at executor protocol points are not available (no hook), the engine relies on repeated runs with different worker counts",
+            "every mailbox has capacity >= 1 (enforced by Mailbox::with_capacity)"],
+        "trusted_base": NET_TB + ["M-TASK hand-written; tied by the `task` engine"],
+        "explanation": "theorems ok_step_is_complete, never_stuck_with_nothing_queued, blocked_only_on_channels, ok_iff_nothing_queued, woken_task_has_a_runnable",
+        "level_text": "Lean 4 theorems over M-NET for every interleaving: when the run returns Ok at quiescence no task is half-way, every mailbox is empty, every arrival has been processed and every model is initialised; a half-way task with nothing queued always has an enabled transition (no spurious stall), and a blocked task is blocked on a channel operation; over M-TASK: a Runnable exists iff the state word says so (no lost wake-up); PARTIAL: schedule-independence of the invocation multiset and the executors' idle detection are checked by execution (ST vs MT vs model), not proved",
+        "level_note": NET_NOTE + "; PARTIAL as stated in the assumptions",
+    },
+})
